@@ -2123,7 +2123,7 @@ impl<'store> FindTextSelectionsIter<'store> {
                 for reftextselection in self.refset.iter() {
                     self.textseliters.push((
                         self.resource
-                            .range(reftextselection.begin(), reftextselection.end()),
+                            .range(reftextselection.begin(), reftextselection.end() + 1),
                         true,
                     ));
                 }
@@ -2179,9 +2179,13 @@ impl<'store> FindTextSelectionsIter<'store> {
             TextSelectionOperator::Before { limit, .. } => {
                 //self comes before found items, so find items after self:
                 let end = if let Some(limit) = limit {
-                    self.refset.end().unwrap() + limit
+                    self.refset
+                        .end()
+                        .unwrap()
+                        .saturating_add(limit)
+                        .saturating_add(1)
                 } else {
-                    self.resource.textlen()
+                    self.resource.textlen() + 1
                 };
                 self.textseliters
                     .push((self.resource.range(self.refset.end().unwrap(), end), true));
@@ -2213,15 +2217,17 @@ impl<'store> FindTextSelectionsIter<'store> {
                         } else {
                             0
                         };
-                        self.textseliters
-                            .push((self.resource.range(begin, reftextselection.end()), true));
+                        self.textseliters.push((
+                            self.resource.range(begin, reftextselection.begin() + 1),
+                            true,
+                        ));
                     } else {
-                        let mut end = reftextselection.end() + limit;
+                        let mut end = reftextselection.end().saturating_add(limit);
                         if end > self.resource.textlen() {
                             end = self.resource.textlen();
                         }
                         self.textseliters.push((
-                            self.resource.range(reftextselection.end(), end),
+                            self.resource.range(reftextselection.end(), end + 1),
                             false, //search backwards!!
                         ));
                     }
@@ -2232,11 +2238,11 @@ impl<'store> FindTextSelectionsIter<'store> {
                 for reftextselection in self.refset.iter() {
                     if reftextselection.begin() <= halfway {
                         self.textseliters
-                            .push((self.resource.range(0, reftextselection.end()), true));
+                            .push((self.resource.range(0, reftextselection.end() + 1), true));
                     } else {
                         self.textseliters.push((
                             self.resource
-                                .range(reftextselection.end(), self.resource.textlen()),
+                                .range(reftextselection.end(), self.resource.textlen() + 1),
                             false, //search backwards!!
                         ));
                     }
